@@ -174,10 +174,11 @@ def run(ctx):
     # several maintenance steps, three slots only (slots of vanished packs are reused)
     hist = ctx.tlc_gen("odb", "OdbHist_Gen", consts={"MaxSteps": 30}, workers=1, sim="num=%d" % (40 if not ctx.thorough else 160), timeout=600,
                        ) if True else []
-    for c in hist:
+    for k, c in enumerate(hist):
         c["op"] = "calls"
         c["objects"] = objects
         c["slots"] = 3
+        c["date"] = 1000000000 + 100000 * (ctx.seed % 1000) + 1000 * k      # commit dates (hence pack names) are part of the case
     res = ctx.harness(binary, hist, env=env, timeout=300, max_failures=3)
     for c, r in zip(hist, res):
         ctx.nontrivial(json.dumps(c["steps"], sort_keys=True))
@@ -263,7 +264,7 @@ def replay(ctx, rec):
     c["objects"] = objects
     r = ctx.harness(binary, [c], env={"VERIF_C12_TEMPLATE": tdir})[0]
     for k, (s, g) in enumerate(zip(c["steps"], r.get("got", []))):
-        if "env" in s:
+        if s.get("env") or s.get("op") in ("open_stable", "drop"):
             continue
         if "panic" in g or "error" in g or g.get("found") != s["found"] or not g.get("exact", False):
             ctx.violation({"kind": "calls", "case": c, "step": k, "observed": g, "what": "replayed"})
